@@ -2698,7 +2698,9 @@ def str_trim_start_matches_str(ex, m, a, fr, dest):
         return s
     s, p = as_symstr(s), as_symstr(p)
     if is_sym(p.n):
-        raise Unsupported('trim_start_matches with symbolic-length pattern')
+        # decide the pattern's length by forking over the possible values
+        k = ex.concretize(p.n, 0, len(p.chars), 'pattern length')
+        p = SymStr(p.chars[:k], k)
     if p.n == 0:
         return str_simplify(s)
     while len(s.chars) >= p.n and ex.branch(str_starts_with(s, p), 'trim_start_matches'):
